@@ -48,7 +48,7 @@ def run(ck, facts, tier):
     ck.rule(R, "K4: inference variables are bound (ena unify_var_value) only in the audited functions; a new binding site must be "
                "added to the table with its justification")
     sites = cg.callers_of(lambda k: k == BIND)
-    ck.floor(R, "unify_var_value-sites", len(sites), 7)
+    ck.floor(R, "unify_var_value-sites", len(sites), 5)
     for k, blk, t in sites:
         if k in BIND_TABLE:
             ck.ok(R, short(k), BIND_TABLE[k])
@@ -243,19 +243,8 @@ def run(ck, facts, tier):
                             ck.violation(R, inst, b.where(arm["ln"]), "%s, expected %s" % ("passes" if passes else "fails", "pass" if want else "Err"))
             ck.floor(R, "cells", n, 12)
     rt = need_body(ck, facts, R, UNI + "::relate_ty_ty")
-    if rt:
-        ms = pair_match(rt.thir, "chalk_ir::TyKind")
-        if len(ms) == 1:
-            vv = select_arms(ms[0], T(V("InferenceVar"), V("InferenceVar")))
-            body_ = ms[0]["arms"][vv[0][0]]["body"]
-            narrow = [c for c in calls(body_, "unify_general_var_specific_ty")]
-            pairs = sorted((var_name(c["args"][1]), tuple(sorted(expr_vars(c["args"][2])))) for c in narrow)
-            okv = pairs == [("var1", ("b",)), ("var2", ("a",))] and len([c for c in calls(body_, "unify_var_var")]) == 2 and \
-                any(n.get("k") == "adt" and n.get("v") == "Err" for n in walk(body_)) and len([c for c in calls(body_, "push_subtype_goal")]) == 2
-            if okv:
-                ck.ok(R, "relate_ty_ty:(var,var)", "general/general by variance; equal kinds unify; general narrows to specific; else Err")
-            else:
-                ck.violation(R, "relate_ty_ty:(var,var)", rt.where(ms[0]["arms"][vv[0][0]]["ln"]), "variable/variable table changed shape: %s" % pairs)
+    # (the variable/variable cases are decided by C14.VAR-VAR-TABLE, by symbolic evaluation - no source shape assumed)
+    varvar_table(ck, facts, "C14.VAR-VAR-TABLE")
 
     R = "C14.RIGID"
     ck.rule(R, "K1/K2: in relate_ty_ty two different rigid constructors end in Err(NoSolution); every same-constructor arm relates every "
@@ -333,3 +322,87 @@ def run(ck, facts, tier):
                 else:
                     ck.violation(R, inst, rb.where(n_.get("ln")), "expected `%s` instantiated universally then `%s` existentially under %s; found %s under %s"
                                  % (uni, exi, sorted(vs), order, sorted(x for x in got if x)))
+
+
+def varvar_table(ck, facts, R, symmetric_only=False):
+    """The (kind1, kind2) decision table of relate_ty_ty's (InferenceVar, InferenceVar) arm, by symbolic evaluation (K10): whatever
+    the arm is written as (if-chain with `matches!` / `==`, a `match (kind1, kind2)`, helper-free), each of the 9 kind pairs must reach
+    exactly the outcome the kinds dictate."""
+    from shared import fixedpoint as fp
+    ck.rule(R, "K10 (symbolic evaluation): in Unifier::relate_ty_ty two inference variables of kinds (k1, k2) in {General, Integer, Float}^2 "
+               "are handled as: equal kinds -> unify_var_var (General/General may instead push a subtype goal, by variance); General with "
+               "a specific kind -> narrow the *general* one (unify_general_var_specific_ty on that side's variable); Integer with Float in "
+               "either order -> Err(NoSolution).  The table must be symmetric under swapping the two sides")
+    rt = need_body(ck, facts, R, UNI + "::relate_ty_ty")
+    if not rt:
+        return
+    ms = pair_match(rt.thir, "chalk_ir::TyKind")
+    if len(ms) != 1:
+        ck.violation(R, "relate_ty_ty:match", rt.where(), "expected one (TyKind, TyKind) match")
+        return
+    vv = select_arms(ms[0], T(V("InferenceVar"), V("InferenceVar")))
+    arm = ms[0]["arms"][vv[0][0]]
+    names = {}
+    pat = arm["pat"]
+    for side, _n, sp in (pat.get("sub") or []):
+        q = sp
+        while isinstance(q, dict) and q.get("k") in ("deref",) and q.get("sub"):
+            q = q["sub"]
+        if isinstance(q, dict) and q.get("k") == "variant":
+            for idx, _fn, b in q.get("sub", []):
+                if isinstance(b, dict) and b.get("k") == "bind":
+                    names[(side, idx)] = b["n"]
+    v1, k1, v2, k2 = names.get((0, 0)), names.get((0, 1)), names.get((1, 0)), names.get((1, 1))
+    if not (v1 and k1 and v2 and k2):
+        ck.violation(R, "relate_ty_ty:(var,var):unclassified", rt.where(arm["ln"]), "cannot read the bindings of the (InferenceVar, InferenceVar) arm")
+        return
+
+    def leaf(n):
+        k = n.get("k")
+        if k == "call":
+            if callee_matches(n, "unify_var_var"):
+                return "vv"
+            if callee_matches(n, "unify_general_var_specific_ty"):
+                a1 = var_name(n["args"][1]) if len(n.get("args", [])) > 1 else None
+                return "narrow1" if a1 == v1 else "narrow2" if a1 == v2 else "narrow?"
+            return "call:" + str(n.get("fn", "")).split("::")[-1]
+        if k == "adt" and n.get("v") == "Err":
+            return "err"
+        if k == "adt" and n.get("v") == "Ok":
+            return "ok"
+        return "?" + str(k)
+
+    KINDS = ("General", "Integer", "Float")
+    table = {}
+    for a in KINDS:
+        for b in KINDS:
+            env = {k1: V(a), k2: V(b)}
+            res = fp.ev(arm["body"], env, None, leaf)
+            table[(a, b)] = {x[1] if fp.is_ret(x) else x for x in res}
+    n = 0
+    mirror = {"narrow1": "narrow2", "narrow2": "narrow1"}
+    for (a, b), got in sorted(table.items()):
+        n += 1
+        inst = "relate_ty_ty:(var:%s,var:%s)" % (a, b)
+        if a == b == "General":
+            ok = "vv" in got and got <= {"vv", "ok"}
+            want = "unify_var_var (or a subtype goal, by variance)"
+        elif a == b:
+            ok, want = got == {"vv"}, "unify_var_var"
+        elif a == "General":
+            ok, want = got == {"narrow1"}, "narrow the first (general) variable"
+        elif b == "General":
+            ok, want = got == {"narrow2"}, "narrow the second (general) variable"
+        else:
+            ok, want = got == {"err"}, "Err(NoSolution)"
+        sym = {mirror.get(x, x) for x in table[(b, a)]} == got
+        if None in got or any(str(x).startswith(("?", "call:", "narrow?")) for x in got):
+            ck.violation(R, inst + ":unclassified", rt.where(arm["ln"]), "the evaluator cannot interpret the arm on this input (outcomes %s)" % sorted(map(str, got)))
+        elif not sym:
+            ck.violation(R, inst + ":asymmetric", rt.where(arm["ln"]), "outcome %s, but the swapped pair gives %s: whether two variables unify "
+                         "depends on the order of the arguments" % (sorted(got), sorted(table[(b, a)])))
+        elif not ok and not symmetric_only:
+            ck.violation(R, inst, rt.where(arm["ln"]), "outcome %s, the kinds require: %s" % (sorted(got), want))
+        else:
+            ck.ok(R, inst, ",".join(sorted(got)))
+    ck.floor(R, "kind-pairs", n, 9)
